@@ -204,8 +204,8 @@ WantColour(o, g, y, x) ==
 TypedCellColours(o) ==
   LET M == o.matrix n == Len(M) b == o.border w == n + 2*b s == o.scale d == o.doc IN
   CASE o.kind = "png" ->
-         LET rows == Unfilter(d.lines, (d.width * d.depth + 7) \div 8)
-             px(y, x) == PngColour(d, Sample(rows[y+1], x, d.depth))
+         LET rows == PngRows(d)
+             px(y, x) == PngPixel(d, rows[y+1], x)
          IN [y \in 0..w-1 |-> [x \in 0..w-1 |->
                IF \A dy \in 0..s-1 : \A dx \in 0..s-1 : px(y*s + dy, x*s + dx) = px(y*s, x*s) THEN px(y*s, x*s) ELSE <<-3, -3, -3, -3>>]]
     [] o.kind = "ppm" ->
